@@ -80,6 +80,14 @@ class Labeller:
                 return [("indirect call result", None)]
             sh = short(path)
             if path == FROM_RESIDUAL and args:
+                if site:
+                    # `?` on an Option: the residual is `None`, which carries no error
+                    sb = self.facts.body(site[0])
+                    if sb is not None:
+                        a0 = sb.blocks[site[1]].term.args
+                        if a0 and a0[0].place is not None and \
+                                sb.local_ty(a0[0].place.local).startswith("std::option::Option<std::convert::Infallible>"):
+                            return []
                 return self.unlabelled(args[0], depth - 1, env)
             if path == TRY_BRANCH and args:
                 return self.unlabelled(args[0], depth - 1, env)
@@ -170,6 +178,14 @@ class Labeller:
                 return [("fresh VfsError without with_path", None)]
             if sh in ("Clone::clone", "Deref::deref") and e[2]:
                 return self.err_value_unlabelled(e[2][0], depth - 1, env)
+            if sh in ("FnOnce::call_once", "Fn::call", "FnMut::call_mut") and e[2] and strip(e[2][0])[0] == "closure":
+                # a local closure that builds the error (several refusals sharing one construction): what it returns
+                cb = self.facts.body(strip(e[2][0])[1])
+                if cb is not None:
+                    out = []
+                    for ct, _, _ in self.inter.ret_cases(cb):
+                        out.extend(self.err_value_unlabelled(ct, depth - 1, env))
+                    return out
             return [("error produced by %s without with_path" % sh, None)]
         if k == "errval":
             return self.unlabelled(e[1], depth - 1, env)
@@ -361,7 +377,9 @@ def run_error_rs(facts, rep):
         rep.ob("R12.3a", b.id, "io::Error wrapped into a kind only in error.rs", inside,
                "" if inside else "%s builds VfsErrorKind::%s by hand: the error bypasses From<io::Error>, so an OS 'no such file' "
                "is not classified as FileNotFound" % (b.id, var), line)
-    rep.floor("io-error kind construction sites", len(io_ctor), 2)
+    # floor: the From<io::Error> conversion is the one construction the rule cannot do without (the normalising match may or may
+    # not rebuild IoError for the kinds it passes through — `other => other` does not)
+    rep.floor("io-error kind construction sites", len(io_ctor), 1)
     # From<io::Error> delegates
     fio = facts.body("<error::VfsError as std::convert::From<std::io::Error>>::from")
     if fio is None:
